@@ -304,7 +304,7 @@ def slim(r):
 def simplicity(e):
     if e["level"] == "scan":
         return (0, e["off"])
-    return (len(e["bodies"]), sum(len(r["outs"]) for r in e["recon"]), e["M"], 0 if e["level"] == "byte" else 1, e["id"])
+    return (len(e["bodies"]), sum(len(r["outs"]) for r in e["recon"]), e["M"], e["mr"], 0 if e["level"] == "byte" else 1, e["id"])
 
 
 def describe(inv, e):
@@ -312,11 +312,13 @@ def describe(inv, e):
         return ("scanEvents over a body cut after %d bytes (%d events complete, cut %s/%s) yielded %d events, the last one %s; ended %s"
                 % (e["off"], e["n"], e["cls"], e["knd"], len(e["yielded"]), json.dumps(e["yielded"][-1:])[:160], e["ended"]))
     c = e["cfg"]
-    return ("real client violates %s: %s stream ids=%s prime=%s scheme=%s M=%d MaxRetries=%d; bodies %s; reconnects %s; Read returned %s, "
+    more = e.get("more", 0) + max(0, len(e["bodies"]) - 8)
+    tail = (" ... and %d more bodies like the last one, each after a reconnect answered 200" % more) if more else ""
+    return ("real client violates %s: %s stream ids=%s prime=%s scheme=%s M=%d MaxRetries=%d%s; bodies %s%s; reconnects %s; Read returned %s, "
             "handler saw %s, outcome %s%s" % (
-                inv, c["kind"], c["ids"], c["prime"], c["scheme"], c["M"], c["mr"],
-                [(b["from"], b["n"], b["cls"], b["knd"], "off=%d/%d" % (b["off"], b["len"]), "c=%d" % b["c"]) for b in e["bodies"]],
-                [(r["sent"], r["raw"], r["outs"]) for r in e["recon"]], e["rd"], e["notes"], e["outcome"],
+                inv, c["kind"], c["ids"], c["prime"], c["scheme"], c["M"], c["mr"], " stuck server" if c.get("tail") == "stuck" else "",
+                [(b["from"], b["n"], b["cls"], b["knd"], "off=%d/%d" % (b["off"], b["len"]), "c=%d" % b["c"]) for b in e["bodies"][:8]], tail,
+                [(r["sent"], r["raw"], r["outs"]) for r in e["recon"][:8]], e["rd"], e["notes"], e["outcome"],
                 (" (" + e["err"][:90] + ")") if e["err"] else ""))
 
 
@@ -394,10 +396,14 @@ def _run(tier, seed, replay, ctl):
                                             classes=red if quick else ALL_CLASSES)),
                    ("mc_asis", 2, cfg_text(tail=ASIS_INVS, ms="{2}" if quick else "{2, 3}", cuts=2, tails=both,
                                            schemes='{"nested"}' if quick else '{"dec", "nested"}')),
-                   # the whole status class and longer budgets against the repaired design: every transient status is
-                   # retried within the budget, every run of fruitless bodies ends (also against a stuck server)
-                   ("mc_status", 1, cfg_text(fix="TRUE", tail=PROP_INVS, ms="{2}", mrs="{1, 2, 3}", cuts=2 if quick else 3, tails=both,
-                                             shapes="IdShapes", schemes='{"dec"}', classes='{"bnd", "data"}', answers=FULL_ANSWERS))]
+                   # the whole status class against the repaired design: every transient status, at every attempt and in
+                   # every sequence, is retried within the budget
+                   ("mc_status", 1, cfg_text(fix="TRUE", tail=PROP_INVS, ms="{2}", mrs="{1, 2, 3}", cuts=1, shapes="IdShapes",
+                                             schemes='{"dec"}', classes='{"bnd", "data"}', answers=FULL_ANSWERS)),
+                   # longer budgets against a stuck server: every run of fruitless bodies ends (Terminates, InvBoundedRetries)
+                   ("mc_runs", 1 if quick else 2,
+                    cfg_text(fix="TRUE", tail=PROP_INVS, ms="{2}", mrs="{1, 2, 3}", cuts=2, tails=both, shapes="IdShapes", schemes='{"dec"}',
+                             classes='{"bnd"}' if quick else '{"bnd", "data"}', answers='{"terr", "ok"}' if quick else '{"terr", "ok", "500"}'))]
         base = cfg_text(tail="", ms="{2}", cuts=2, schemes='{"dec"}', classes='{"bnd", "data"}', tails=both)
         design += [("wit:" + w, 1, base.replace("CHECK_DEADLOCK", "INVARIANT %s\nCHECK_DEADLOCK" % w)) for w in WITNESSES]
 
@@ -668,8 +674,9 @@ def _run(tier, seed, replay, ctl):
                     r["id"], r["off"], r["cls"], r["knd"], len(r["yielded"]), r["ended"]))
             else:
                 v.drift.append("%s %s: observed bodies/reconnects/deliveries differ from StreamCli.tla: got outcome=%s rd=%s recon=%s bodies=%s exit=%s; model %s" % (
-                    r["level"], r["id"], r["outcome"], r["rd"], [(x["sent"], x["outs"]) for x in r["recon"]],
-                    [(b["from"], b["n"], b["cls"], b["knd"]) for b in r["bodies"]], r["exit"][:60],
+                    r["level"], r["id"], r["outcome"], r["rd"], [(x["sent"], x["outs"]) for x in r["recon"][:10]],
+                    [(b["from"], b["n"], b["cls"], b["knd"]) for b in r["bodies"][:10]] + (["+%d more" % (len(r["bodies"]) - 10 + r.get("more", 0))]
+                                                                                         if len(r["bodies"]) > 10 else []), r["exit"][:60],
                     json.dumps({k: r["exp"][k] for k in ("outcome", "rd")}) if r["hasexp"] else "has no matching behaviour"))
         if r["level"] != "scan" and r.get("pred") is not None:
             if r["pred"] and set(r["pred"]) <= set(real):
